@@ -150,6 +150,7 @@ def _slice_lemma(shape):
         out["status"] = HOLDS if res.cex else "harness-error"
         out["detail"] = "reachability twin"
         out["cex"] = []
+        out["obligations"] = out["discharged"] = 0  # the twin's assertion is meant to fail: not an obligation of the property
         return out
     vios = []
     for cx in res.cex:
